@@ -73,6 +73,31 @@ def register(reg):
         ("budget", "len(g.cs) <= self._binomial_snapshots"),
         ("cover_chain", "forall(0, len(g.cs) - 1, lambda i: g.cov[i] >= g.cs[i + 1])"),
     ]
+    # C13 potential (see contracts/multistage.py: WADV is the recurrence induced by the real n_advance)
+    S_ = "(self._binomial_snapshots + 1)"
+    K_ = "len(snapshots)"
+    T_ = "self._trajectory"
+    E_ = "(g.N - g.adj)"
+    TOP = "snapshots[%s - 1]" % K_
+    BLOCK_END = "min(n0s + self._period, g.N)"
+    TOT = "WADV(g.bl, %s, %s)" % (S_, T_)
+    CHAIN = ("g.bs == n0s and g.bl == %s - n0s and len(g.P) == %s and implies(%s >= 1, g.P[0] == 0) and "
+             "forall(1, %s, lambda i: g.P[i] == g.P[i - 1] + WADV(snapshots[i] - snapshots[i - 1], %s - i + 1, %s))"
+             % (BLOCK_END, K_, K_, K_, S_, T_))
+    POT_BLOCK = [
+        # (at a block's very first iteration the ghost still describes the previous block: its first
+        # action, the Copy of the periodic checkpoint, starts the accounting)
+        ("untouched_block_has_only_its_periodic_checkpoint", "implies(%s == %s, %s == 1)" % (E_, BLOCK_END, K_)),
+        ("potential_stack", "implies(%s < %s, %s)" % (E_, BLOCK_END, CHAIN)),
+        ("potential", "implies(%(E)s < %(BE)s, (%(K)s == 0 and g.tb == %(TOT)s) or (%(K)s >= 1 and "
+                      "g.tb + g.P[%(K)s - 1] + WADV(%(E)s - %(TOP)s, %(S)s - %(K)s + 1, %(T)s) == %(TOT)s))"
+         % {"E": E_, "BE": BLOCK_END, "K": K_, "TOT": TOT, "TOP": TOP, "S": S_, "T": T_})]
+    POT_INNER = [
+        ("potential_stack", CHAIN),
+        ("potential", "g.tb + g.P[%(K)s - 1] + WADV(self._n - %(TOP)s, %(S)s - %(K)s + 1, %(T)s) + "
+                      "WADV(%(E)s - self._n, %(S)s - %(K)s, %(T)s) == %(TOT)s"
+         % {"E": E_, "K": K_, "TOT": TOT, "TOP": TOP, "S": S_, "T": T_})]
+    STEP = ["self._max_n - self._r - n0", "n_snapshots", "self._trajectory"]
     reg.add(Contract(
         "twolevel_binomial.TwoLevelCheckpointSchedule._iterator", self_class="TwoLevelCheckpointSchedule",
         params=[("self", "obj")],
@@ -81,6 +106,19 @@ def register(reg):
         frame=["_n", "_r", "_max_n"], props=STREAM, exc_props={"*": ("C17", "C01", "C02")},
         locals={"snapshots": ("list", ["int"])},
         hints={"n0": [("use", "inside_block_not_multiple", ["n0s", "n0", "self._period"])],
+               "n1[1]": [("use", "WADV.step", STEP),
+                         ("segment_splits",
+                          "WADV(%(E)s - n0, %(S)s - %(K)s + 1, %(T)s) == (n1 - n0) + "
+                          "WADV(%(E)s - n1, %(S)s - %(K)s, %(T)s) + WADV(n1 - n0, %(S)s - %(K)s + 1, %(T)s)"
+                          % {"E": E_, "S": S_, "K": K_, "T": T_})],
+               "n1[2]": [("top_of_the_ghost_stack",
+                          "len(g.P) == len(snapshots) and len(g.cs) == len(snapshots) - 1 and "
+                          "(g.cs[len(g.cs) - 1] if len(g.cs) >= 1 else g.bs) == snapshots[len(snapshots) - 1]"),
+                         ("use", "WADV.step", STEP),
+                         ("segment_splits",
+                          "WADV(%(E)s - n0, %(S)s - %(K)s, %(T)s) == (n1 - n0) + "
+                          "WADV(%(E)s - n1, %(S)s - %(K)s - 1, %(T)s) + WADV(n1 - n0, %(S)s - %(K)s, %(T)s)"
+                          % {"E": E_, "S": S_, "K": K_, "T": T_})],
                "n0s": [
             ("use", "block_base", ["g.N - g.adj", "self._period"]),
             ("use", "block_of_boundary", ["g.N - g.adj", "self._period"]),
@@ -92,7 +130,7 @@ def register(reg):
                "emit_EndForward": "tl_end_forward", "emit_Reverse": "tl_reverse", "emit_Copy": "tl_copy",
                "emit_Move": "tl_move", "emit_EndReverse": "tl_end_reverse",
                "env_frame": ["_n", "_max_n"],
-               "ghost_types": {"cs": ("list", ["int"]), "cov": ("list", ["int"])}},
+               "ghost_types": {"cs": ("list", ["int"]), "cov": ("list", ["int"]), "P": ("list", ["int"])}},
         loops=[
             LoopSpec("self._max_n is None", PERIODIC + [
                 ("phase", "g.phase == 0 and not g.done and g.passes == 0 and g.adj == 0 and self._r == 0"),
@@ -112,13 +150,13 @@ def register(reg):
                 decreases="g.N - g.adj"),
             LoopSpec("self._r < self._max_n - n0s", REV + BLOCK + [
                 ("top_below_adjoint", "implies(g.N - g.adj > n0s, snapshots[len(snapshots) - 1] <= g.N - g.adj - 1)"),
-                ("top_covers", "implies(len(g.cs) >= 1, g.cov[len(g.cs) - 1] >= g.N - g.adj)")],
+                ("top_covers", "implies(len(g.cs) >= 1, g.cov[len(g.cs) - 1] >= g.N - g.adj)")] + POT_BLOCK,
                 decreases="g.N - g.adj - n0s"),
             LoopSpec("self._n < self._max_n - self._r - 1", REV + BLOCK + [
                 ("inside_block", "g.N - g.adj > n0s"),
                 ("forward_position", "snapshots[len(snapshots) - 1] < self._n and self._n <= g.N - g.adj - 1"),
                 ("top_covers", "implies(len(g.cs) >= 1, g.cov[len(g.cs) - 1] >= self._n)"),
                 ("unit_left_or_at_end", "len(snapshots) < self._binomial_snapshots + 1 or "
-                                        "self._n == g.N - g.adj - 1")],
+                                        "self._n == g.N - g.adj - 1")] + POT_INNER,
                 decreases="g.N - g.adj - 1 - self._n"),
         ]))
